@@ -14,7 +14,7 @@
       although 10% of the capacity is 1 (witness for the "lowerBound dropped"
       mutation family). *)
 From Coq Require Import List ZArith QArith Bool.
-From GZ Require Import Lib.RollingWindow C02.Model C02.Proofs C02.ProofsHist C02.Wrap.
+From GZ Require Import Lib.RollingWindow C02.Model C02.Proofs C02.ProofsHist C02.Wrap C02.Conc.
 Import ListNotations.
 Open Scope Z_scope.
 
@@ -204,3 +204,83 @@ Proof.
   split; [exists GPanic; split; reflexivity|].
   vm_compute. split; reflexivity.
 Qed.
+
+(* ------------------------------------------------------------------ *)
+(* 8. "Reserve, then check" (seeded C02-7): Allow takes its slot first (flying + 1), decides with
+      flying - 1, and gives the slot back with a raw decrement when it drops.  Alone, a call sees
+      exactly what it saw before - every SEQUENTIAL history has the same verdicts.  In the interleaving
+      semantics the counter also contains the slots of calls that are still between their increment
+      and their decision: N overlapping calls that have all reserved each see N - 1 "in flight"
+      although no promise at all is out.  Thread actions of the variant (pc):
+        0 reserve | 1..7 = Conc's 0..6 | 8 = Conc's 7 with flying - 1 | 9 drop: give back, set
+        droppedRecently | 10 grant. *)
+Definition allow_act_rc (sh : state) (t : thread) (now cpu1 cpu2 : Z) : state * thread :=
+  match tpc t with
+  | 0%nat => (set_flying sh (flying sh + 1) (avgFlying sh), at_pc t 1)
+  | 1%nat => if sthreshold sh <=? cpu1 then (set_overload sh now, at_pc t 5) else (sh, at_pc t 2)
+  | 2%nat => if droppedRecently sh then (sh, at_pc t 3) else (sh, at_pc t 10)
+  | 3%nat => let ot := overloadTime sh in
+             let t' := mkT (tcall t) 0 ot (tavg t) (tmp t) (trt t) (tfl t) (tres t) in
+             if ot =? 0 then (sh, at_pc t' 10)
+             else if now - ot <? coolOffDuration then (sh, at_pc t' 5)
+             else (sh, at_pc t' 4)
+  | 4%nat => (set_dropped sh false, at_pc t 10)
+  | 5%nat => (sh, mkT (tcall t) 6 (tot t) (avgFlying sh) (tmp t) (trt t) (tfl t) (tres t))
+  | 6%nat => (sh, mkT (tcall t) 7 (tot t) (tavg t) (max_pass sh now) (trt t) (tfl t) (tres t))
+  | 7%nat => (sh, mkT (tcall t) 8 (tot t) (tavg t) (tmp t) (min_rt sh now) (tfl t) (tres t))
+  | 8%nat => let t' := mkT (tcall t) 0 (tot t) (tavg t) (tmp t) (trt t) (flying sh - 1) (tres t) in
+             match overload_factor (sthreshold sh) cpu2 with
+             | None => (sh, at_pc t' 10)
+             | Some f =>
+               if q_ltb (reg_bound (sscale sh) t' f) (tavg t') &&
+                  q_ltb (reg_bound (sscale sh) t' f) (inject_Z (tfl t'))
+               then (sh, at_pc t' 9) else (sh, at_pc t' 10)
+             end
+  | 9%nat => (set_dropped (set_flying sh (flying sh - 1) (avgFlying sh)) true,
+              mkT (tcall t) 11 (tot t) (tavg t) (tmp t) (trt t) (tfl t) (Some RShed))
+  | 10%nat => (sh, mkT (tcall t) 11 (tot t) (tavg t) (tmp t) (trt t) (tfl t) (Some RAdmit))
+  | _ => (sh, t)
+  end.
+
+Definition act_rc (sh : state) (ths : list thread) (t : thread) : state * thread :=
+  match tcall t with
+  | CAllow now cpu1 cpu2 => allow_act_rc sh t now cpu1 cpu2
+  | _ => act sh ths t
+  end.
+
+Definition cstep_rc (m : machine) (tid : nat) : machine :=
+  match nth_error (snd m) tid with
+  | None => m
+  | Some t => let '(sh', t') := act_rc (fst m) (snd m) t in (sh', upd_nth tid t' (snd m))
+  end.
+
+Definition crun_rc (m : machine) (sched : list nat) : machine := fold_left cstep_rc sched m.
+
+(* 10 s window, 10 buckets (capacity estimate 1): 40 calls let in and passed one by one (flying 0, average
+   ~ 8.8); then three overlapping Allows with the CPU at 1000.  Schedule: the 80 earlier calls one after
+   the other; the three reserve (one step each), decide, and return. *)
+Definition rc_cfg : config := mkCfg 10000000000 10 900 true.
+Definition rc_calls : list call :=
+  repeat (CAllow B 0 0) 40 ++ map (fun i => CPass i (B + ms)) (seq 0 40) ++ repeat (CAllow (B + 2 * ms) 1000 1000) 3.
+Definition rc_prefix : list nat :=
+  concat (map (fun i => repeat i 12) (seq 0 80)).
+(* reserve x 3; each decides (5 steps: checker, average, maxPass, minRt, flying) and stands before its drop
+   action - where the Go code writes its log line; then the three droppers give back and return *)
+Definition rc_sched : list nat :=
+  rc_prefix ++ [80; 81; 82]%nat ++ repeat 80%nat 5 ++ repeat 81%nat 5 ++ repeat 82%nat 5 ++ [80; 81; 82]%nat.
+
+Theorem reserve_then_check_sheds_with_nothing_in_flight_refuted :
+  let m := crun_rc (start rc_cfg B rc_calls) rc_sched in
+  (* all three overlapping calls are shed ... *)
+  map tres (skipn 80 (snd m)) = [Some RShed; Some RShed; Some RShed] /\
+  (* ... each having "seen" two requests in flight ... *)
+  map tfl (skipn 80 (snd m)) = [2; 2; 2] /\
+  (* ... although every promise ever handed out had been resolved before they started
+     (40 handed out, 40 resolved), and the counter is back at 0 afterwards *)
+  countb is_granted (snd m) = 40 /\ countb has_decremented (snd m) = 40 /\ flying (fst m) = 0 /\
+  (* the real Allow, the same calls, the three overlapping ones step by step in turn: each reads
+     0 in flight and is let in (Props.idle_never_sheds_interleaved) *)
+  (let m' := crun (start rc_cfg B rc_calls) (rc_prefix ++ concat (repeat [80; 81; 82]%nat 12)) in
+   map tres (skipn 80 (snd m')) = [Some RAdmit; Some RAdmit; Some RAdmit] /\
+   map tfl (skipn 80 (snd m')) = [0; 0; 0]).
+Proof. vm_compute. repeat split; reflexivity. Qed.
